@@ -1525,7 +1525,47 @@ func observerMapWriters(c *Ctx, id string) {
 			return false
 		}
 		cs := w.callersOf(f)
-		if len(cs) == 0 || len(w.usesAsValue(f)) > 0 {
+		uses := w.usesAsValue(f)
+		if len(cs) == 0 && len(uses) == 0 {
+			// method values of f (`s.registerObserver`): the bound-method closures that stand for it
+			for _, g := range w.ModFuncs {
+				allInstrs(g, func(in ssa.Instruction) {
+					if mc, isMC := in.(*ssa.MakeClosure); isMC && w.boundMethodOf(mc) == f {
+						uses = append(uses, in)
+					}
+				})
+			}
+		}
+		if len(cs) == 0 && len(uses) > 0 {
+			// a method handed, as a method value, to an iteration over a map (`s.offsets.Range(s.registerObserver)`): it
+			// runs where that iteration runs
+			for _, u := range uses {
+				if ci, isCall := u.(ssa.CallInstruction); isCall { // the iteration call the method value is an argument of
+					if _, _, isRange := w.rangeCall(ci.Common()); !isRange || !onlyFromOpen(rootFn(ci.Parent()), depth+1) {
+						return false
+					}
+					continue
+				}
+				mc, isMC := u.(*ssa.MakeClosure)
+				if !isMC || mc.Referrers() == nil {
+					return false
+				}
+				for _, r := range *mc.Referrers() {
+					ci, isCall := r.(ssa.CallInstruction)
+					if !isCall {
+						return false
+					}
+					if _, _, isRange := w.rangeCall(ci.Common()); !isRange {
+						return false
+					}
+					if !onlyFromOpen(rootFn(ci.Parent()), depth+1) {
+						return false
+					}
+				}
+			}
+			return true
+		}
+		if len(cs) == 0 || len(uses) > 0 {
 			return false
 		}
 		for _, c := range cs {
